@@ -623,6 +623,15 @@ pub fn analyse(
                         .find(|a| a.address == *dest)
                         .map(|a| a.response_timeout_ms)
                         .unwrap_or(1000);
+                    if let Some((a, w, deadline)) = link_status_outstanding {
+                        if written < deadline {
+                            fail!(
+                                "C19/two-requests-outstanding",
+                                "link-status-twice",
+                                format!("{} ms: link status request to {} while the one written to {} at {} ms was unanswered and had not timed out", written, dest, a, w)
+                            );
+                        }
+                    }
                     link_status_outstanding = Some((*dest, written, written + timeout));
                 }
             }
@@ -637,6 +646,69 @@ pub fn analyse(
         }
     }
     let _ = last_event_t;
+    // S1 on the wire, independent of the master's own task callbacks: between a request and the arrival of something that
+    // answers it (or its response timeout, or a disturbance of the connection) no second request is written
+    {
+        let timeout_of = |addr: u16| {
+            case.cfg
+                .assocs
+                .iter()
+                .find(|a| a.address == addr)
+                .map(|a| a.response_timeout_ms)
+                .unwrap_or(1000)
+        };
+        // (order of the arrival record, written at, world-wide order of the write, destination, session)
+        let mut reqs: Vec<(u64, u64, u64, u16, u32)> = hist
+            .iter()
+            .filter_map(|(order, h)| match h {
+                H::Request { t, worder, dest, session, .. } => {
+                    Some((*order, t.saturating_sub(case.latency.0), *worder, *dest, *session))
+                }
+                _ => None,
+            })
+            .collect();
+        reqs.sort_by_key(|r| r.2);
+        // when something that answers a request (by the order number of its arrival record) first reached the master
+        let mut answered_at: BTreeMap<u64, u64> = BTreeMap::new();
+        let mut disturbed_at: Vec<u64> = Vec::new();
+        for (_, h) in hist.iter() {
+            match h {
+                H::PeerTx { t, answers: Some(a), .. } => {
+                    let e = answered_at.entry(*a).or_insert(*t);
+                    *e = (*e).min(*t);
+                }
+                H::Client { t, .. } | H::Closed { t, .. } | H::Connected { t, .. } => disturbed_at.push(*t),
+                H::Op { t, index } => {
+                    if matches!(
+                        case.script.get(*index),
+                        Some(MOp::Cut { .. }) | Some(MOp::Disable) | Some(MOp::Enable) | Some(MOp::RemoveAssoc(_)) | Some(MOp::KillMaster) | Some(MOp::NetPlan(_))
+                    ) {
+                        disturbed_at.push(*t);
+                    }
+                }
+                _ => {}
+            }
+        }
+        for w in reqs.windows(2) {
+            let (first, second) = (w[0], w[1]);
+            if first.4 != second.4 || second.1 >= first.1 + timeout_of(first.3) {
+                continue;
+            }
+            let answered = answered_at.get(&first.0).map(|t| *t <= second.1).unwrap_or(false);
+            let excused = answered || disturbed_at.iter().any(|t| *t >= first.1 && *t <= second.1 + 1);
+            bump("probe.consecutive_requests_judged_on_the_wire", 1);
+            if !excused {
+                fail!(
+                    "C19/two-requests-outstanding",
+                    "wire",
+                    format!(
+                        "a request was written to {} at {} ms while the request written to {} at {} ms was unanswered and its response timeout of {} ms had not elapsed",
+                        second.3, second.1, first.3, first.1, timeout_of(first.3)
+                    )
+                );
+            }
+        }
+    }
     // S5 at the end of the run: a poll that has been due for a while on an idle, connected channel has been starved
     if violation.is_none() && connected && running.is_none() {
         for p in &polls {
